@@ -1567,6 +1567,12 @@ def alloc_kind(e):
             if k.arg == "fill_value":
                 fill = k.value
         if fill is not None and ast.unparse(fill) in ("np.nan", "numpy.nan", "np.NaN", "float('nan')"):
+            if n == "full_like":
+                # the dtype is inherited from the prototype: NaN exists only if that is a float array, which the
+                # call does not establish (an integer weight / label array gives INT_MIN and truncated utilities)
+                dt = next((ast.unparse(k.value) for k in e.keywords if k.arg == "dtype"), None)
+                if dt not in ("float", "np.float64", "numpy.float64", "np.float_", "'float'", "'float64'", "np.double"):
+                    return "nan_like"
             return "nan"
         return "num"
     if n in ("zeros", "ones", "empty", "zeros_like", "ones_like", "empty_like"):
@@ -1656,6 +1662,8 @@ def check_nan_discipline(p, report, f, ff):
             xrow = ("len(X)" in shape_txt) or ("X.shape[0]" in shape_txt) or ("len(y)" in shape_txt) \
                 or ("n_samples" in shape_txt) or any(
                     isinstance(x, ast.Name) and x.id in size_names for _, d in kinds for x in ast.walk(d.value))
+            if not xrow and is_scatter and any(k == "nan_like" for k, _ in kinds):
+                xrow = True   # `full_like(prototype, nan)` scattered through the mapping: the prototype's length AND dtype
             if not xrow:
                 continue
             if not is_scatter:
@@ -1670,8 +1678,11 @@ def check_nan_discipline(p, report, f, ff):
                 continue
             report.add("R1.3", f.qual, construct, f"{f.file}:{n.lineno}", not bad,
                        detail="target allocated NaN-filled" if not bad else
-                       f"target allocated by `{norm_stmt(bad[0].value, 60)}`: positions outside the candidate "
-                       f"mapping carry numbers and can be selected")
+                       (f"target allocated by `{norm_stmt(bad[0].value, 60)}`: it inherits the dtype of its prototype, and only a "
+                        f"float array can hold NaN - for an integer prototype (0/1 weights, labels) the fill is INT_MIN and the "
+                        f"utilities are truncated, on the mapping path only" if any(k == "nan_like" for k, _ in kinds) else
+                        f"target allocated by `{norm_stmt(bad[0].value, 60)}`: positions outside the candidate "
+                        f"mapping carry numbers and can be selected"))
 
 
 # ---------------------------------------------------------------------------
